@@ -67,6 +67,35 @@ Theorem C02_populate : forall vm, sampler_output vm -> wf_op (AppendVoteMap vm).
 Proof. exact sampler_wf. Qed.
 Print Assumptions C02_populate.
 
+(* populate_X = append_vote_map (prefsampling_ordinal_wrapper sampler params): `wrapper` mirrors the
+   wrapper of instances/sampling.py on the sampler's raw rows.  For rows that are non-empty
+   duplicate-free rankings its result has duplicate-free keys, is the counting function of the rows
+   (as singleton-class orders), expands to a permutation of them, is a sampler_output, and the populate
+   call is a well-formed operation after which the invariant holds with votes = the rows. *)
+Theorem C02_wrapper : forall rows, sampler_rows rows ->
+  NoDup (map fst (wrapper rows)) /\
+  (forall o, lookup (wrapper rows) o =
+             if (cnt (map strictify rows) o =? 0)%N then None else Some (cnt (map strictify rows) o)) /\
+  Permutation (expand (wrapper rows)) (map strictify rows) /\
+  sampler_output (wrapper rows).
+Proof. exact wrapper_spec. Qed.
+Print Assumptions C02_wrapper.
+
+Theorem C02_populate_rows : forall ops rows, wf_ops ops -> sampler_rows rows ->
+  wf_op (AppendVoteMap (wrapper rows)) /\
+  Inv (run (ops ++ [AppendVoteMap (wrapper rows)])) (votes_of ops ++ map strictify rows).
+Proof. exact populate_rows. Qed.
+Print Assumptions C02_populate_rows.
+
+Example C02_example_rows :
+  sampler_rows [[2;0;1]; [0;1;2]; [2;0;1]]%N /\
+  wrapper [[2;0;1]; [0;1;2]; [2;0;1]]%N = [ ([[2];[0];[1]], 2); ([[0];[1];[2]], 1) ]%N.
+Proof.
+  split; [|vm_compute; reflexivity].
+  repeat constructor; simpl; try discriminate; intuition discriminate.
+Qed.
+Print Assumptions C02_example_rows.
+
 (* ---- regrouping / reordering the same multiset of votes ---- *)
 Theorem C02_regroup : forall ops ops',
   wf_ops ops -> wf_ops ops' -> Permutation (votes_of ops) (votes_of ops') ->
